@@ -284,6 +284,49 @@ class Impl:
         self.dispatcher.reset()
         return "ok"
 
+    def cmd_peek(self, ts):
+        """A look-ahead: the request is tried on a deep copy of the dispatcher (as a lookahead rule or filter would); the original
+        must not notice."""
+        j, p = int(ts[0]), int(ts[1])
+        m = None if ts[2] == "none" else int(ts[2])
+        try:
+            twin = copy.deepcopy(self.dispatcher)
+        except Exception as e:  # pylint: disable=broad-except
+            return f"deepcopy-raised {type(e).__name__}"
+        if j >= len(twin.instance.jobs) or p >= len(twin.instance.jobs[j]):
+            return "raise"              # no such operation: nothing to try
+        op = twin.instance.jobs[j][p]
+        try:
+            twin.dispatch(op, m)
+        except Exception:  # pylint: disable=broad-except
+            return "raise"
+        for ms in twin.schedule.schedule:
+            for x in ms:
+                if x.operation.operation_id == op.operation_id:
+                    return f"ok {x.start_time}"
+        return "ok ?"
+
+    def cmd_xform(self, ts):
+        """Instance transformations (they return NEW instances) are applied to the instance under test; results are dropped."""
+        from job_shop_lib.generation import _transformations as T
+        import random as _random
+        inst = self.instance
+        state = _random.getstate()          # the transformations draw from the global generator: put it back afterwards
+        steps = []
+        if inst.num_jobs >= 2:
+            steps += [lambda: T.RemoveJobs(1, max(1, inst.num_jobs - 1))(inst), lambda: T.RemoveJobs.remove_job(inst, 0),
+                      lambda: T.RemoveJobs(1, 1, target_jobs=inst.num_jobs - 1)(inst)]
+        steps += [lambda: T.AddDurationNoise(min_duration=1, max_duration=10, noise_level=2)(inst), lambda: T.RemoveMachines(1)(inst)]
+        name = inst.name
+        for step in steps:
+            try:
+                step()
+            except Exception:  # pylint: disable=broad-except
+                pass                        # (some transformations do not accept flexible instances: their business)
+        _random.setstate(state)
+        inst.name = name                    # `Transformation.__call__` renames what `apply` returned - never the original
+        return "ok"
+
     def cmd_snap(self, ts):
         return self.snapshot()
 
